@@ -22,6 +22,9 @@ ALL_AST = sorted({c for c in vars(ast).values() if isinstance(c, type) and issub
                  key=lambda c: c.__name__)
 
 
+IMPOSSIBLE = "(Some (None, []))"     # a result shape the model never produces: always a disagreement
+
+
 class OutOfDomain(Exception):
     """The case is outside what the model represents (stated in design/C12.md)."""
 
@@ -44,6 +47,7 @@ class Conv:
         self.keep: list = []                # keep converted objects alive (ids must stay unique)
         self.defs: dict[str, tuple] = {}    # Gallina name -> (sequence number, text, names it uses)
         self._vcache: dict[int, str] = {}
+        self.text_of: dict[int, ast.AST] = {}
 
     def define(self, name: str, text: str) -> str:
         deps = set(re.findall(r"\b(?:n|t)_\d+\b", text))
@@ -75,6 +79,7 @@ class Conv:
     def key(self, x) -> int:
         """what _all_fields_consistent compares (core.py:134)"""
         if isinstance(x, ast.AST):
+            x = self.text_of.get(id(x), x)      # hand-built copies unparse like the node they were copied from
             try:
                 return self.intern("u:" + self.core.unparse(x))
             except Exception as e:  # noqa
@@ -215,6 +220,10 @@ class Conv:
         if not m:
             return "None"
         fields = getattr(m, "_fields", None)
+        if type(m) is not tuple and fields == ("root",):
+            # merge_matches returns the PLAIN tuple (root,) when nothing is bound (core.py:150); a
+            # namedtuple with only `root` is not a result the model has
+            return IMPOSSIBLE
         if fields is None:
             assert len(m) == 1, m
             root = "(Some RSkip)" if skip_root else f"(Some {self.ref(m[0])})"
@@ -235,12 +244,31 @@ class Conv:
 _PH = re.compile(r"\{\{(\w+|\.\.\.)([?*+]?)\}\}")
 
 
-def ref_compile(core, source: str):
+def ref_compile(core, source: str, expand=(), **types):
     """pattern text -> template objects, written from the documented meaning of the {{..}} syntax:
     {{n}} = Wildcard(n), {{n?}} {{n*}} {{n+}} = quantified Wildcard(n, common=False), {{...}} =
     anything (binds nothing) and its quantified forms; positions and ctx are not part of a pattern;
-    a single expression statement stands for its expression."""
+    a single expression statement stands for its expression.  `types`: name=<type or tuple of types>
+    restricts what the wildcard matches.  `expand`: a list field that consists of the single wildcard
+    `{{n}}` with n in expand stands for any number of elements, each matching it (a set template)."""
     table = {}
+    expand = (expand,) if isinstance(expand, str) else tuple(expand)
+    def clean(v):
+        """a wildcard's own template: a type, a tuple of such, or a wildcard-free AST instance (of which
+        positions and ctx are not part of the pattern)"""
+        if isinstance(v, type):
+            return v
+        if isinstance(v, tuple):
+            return tuple(clean(c) for c in v)
+        if isinstance(v, ast.AST) and not isinstance(v, (core.Wildcard, core.ZeroOrOne, core.ZeroOrMany, core.OneOrMany)):
+            kw = {}
+            for k, c in vars(v).items():
+                if k in POS_ATTRS or k == "ctx":
+                    continue
+                kw[k] = [clean(e) for e in c] if isinstance(c, list) else (clean(c) if isinstance(c, ast.AST) else c)
+            return type(v)(**kw)
+        raise OutOfDomain("wildcard template that is neither a type nor a plain AST instance")
+    types = {k: clean(v) for k, v in types.items()}
 
     def sub(m):
         nm, suf = m.group(1), m.group(2)
@@ -265,10 +293,24 @@ def ref_compile(core, source: str):
         if nm == "...":
             w = core.Wildcard("Ellipsis_anything", object, common=False) if q is None else object
         else:
-            w = core.Wildcard(nm, object, common=q is None)
+            w = core.Wildcard(nm, types.get(nm, object), common=q is None)
         return w if q is None else q(w)
 
+    def fin(node):
+        if not expand or not isinstance(node, ast.AST):
+            return node
+        kw, changed = dict(vars(node)), False
+        for k, v in kw.items():
+            if isinstance(v, list) and v and isinstance(v[0], core.Wildcard) and v[0].name in expand:
+                if len(v) != 1:
+                    raise OutOfDomain("expand of a list with more than one element (compile_template asserts)")
+                kw[k], changed = {v[0]}, True
+        return type(node)(**kw) if changed else node
+
     def go(x):
+        return fin(go0(x))
+
+    def go0(x):
         if isinstance(x, list):
             return [go(c) for c in x]
         if not isinstance(x, ast.AST):
@@ -276,7 +318,12 @@ def ref_compile(core, source: str):
         if isinstance(x, ast.Name) and x.id in table:
             return wildcard(x.id)
         if isinstance(x, ast.Expr) and isinstance(x.value, ast.Name) and x.value.id in table:
-            return wildcard(x.value.id)
+            w = wildcard(x.value.id)
+            if isinstance(w, core.Wildcard) and isinstance(w.template, (ast.Name, ast.Attribute, ast.Constant)):
+                # a statement-level wildcard typed by an expression instance stands for that expression
+                # statement (visit_Expr)
+                w = core.Wildcard(w.name, ast.Expr(w.template), common=w.common)
+            return w
         if isinstance(x, (ast.FunctionDef, ast.AsyncFunctionDef, ast.ClassDef, ast.arg)):
             raise OutOfDomain("definition patterns are outside the reference")
         if isinstance(x, ast.ImportFrom):
